@@ -169,7 +169,9 @@ class C19(Property):
     technique = "property-based differential testing against CPython's % operator (Hypothesis, template grammar, text and bytes) plus an independent reference splitter"
     level_text = ('~200k (quick) / 3M (thorough) generated templates (literal text, %%, specifiers with nested-parenthesis keys, repeated flags, '
                   'width/precision incl. *, length modifiers, every conversion and unsupported ones, truncated specifiers) with generated arguments: '
-                  'split must equal the reference splitter, the formatted result must equal Python\'s, rejections must agree incl. the index')
+                  'split must equal the reference splitter, the formatted result must equal Python\'s, rejections must agree incl. the index; '
+                  '`check_specifiers` must summarise the split (count, all keyed / none keyed / mixed - mixed templates are generated for it) and '
+                  '`CFormatSpec::from_str` must read every specifier of the template as the splitter did (and refuse a text without `%`)')
     level_note = ("trusts CPython 3.11's % operator and a 60-line reference splitter written from the language reference; '*' quantities and the "
                   's/r/a conversions are resolved by the adapter / driver as a caller of the library must')
     rule = ('templates from a grammar over literal pieces (incl. multi-byte), %%, specifiers = [(key)] flags* [width|*] [.prec|.*|.] [hlL] type, '
@@ -231,10 +233,12 @@ class C19(Property):
             t = cs.pick(['%s', 'a%s', '%%d%s']) % (cs.pick(['%', '%-', '%0', '%(k)', '%#']) + (str(q) if cs.bool() else '.' + str(q)) + cs.pick('dsxfgc'))
             return {'template': t, 'bytes': cs.bool(64), 'args': None, 'limits': True}
         bytes_mode = cs.bool(64)
-        keyed = cs.bool(40)
+        keyed0 = cs.bool(40)
+        mixed = cs.bool(24)      # (keyed and positional specifiers in one template: only the split and `check_specifiers` are compared)
         nparts = 1 + cs.choice(4)
         t = ''
         for _ in range(nparts):
+            keyed = keyed0 if not mixed else cs.bool()
             k = cs.weighted([60, 16, 180])
             if k == 0:
                 t += vg.gen_text(cs, 6, ['abc ', 'xyz', '()', '.5', 'é中\U0001f600'] if not bytes_mode else ['abc ', 'xyz', '()', '.5'])
@@ -358,6 +362,9 @@ class C19(Property):
             if e.kind == 'ModeSpecific':
                 ctx.count('skipped_text_mode_b')
                 return None
+        extra = self.check_entry_points(case, t, bm, parts, ctx)
+        if extra:
+            return extra
         args = case['args']
         if args == 'auto':
             args = self.auto_args(parts, bm) if parts is not None else []
@@ -453,6 +460,49 @@ class C19(Property):
         got = bytes.fromhex(r['out_hex']) if bm else r['out']
         if got != expected[1]:
             return Failure('wrong_text', case=case, got=repr(got), expected=repr(expected[1]))
+        return None
+
+    def check_entry_points(self, case, t, bm, parts, ctx):
+        """the other public ways into the same code, against the template splitter itself and the reference split:
+        `check_specifiers` (how many specifiers, all keyed / none keyed / mixed) for every well-formed template - the mixed ones,
+        which the formatting comparison has to skip, included - and `CFormatSpec::from_str` (one specifier from the start of a
+        text; text mode only), which must read each specifier of the template exactly as the splitter did"""
+        sut = ctx.sut('A')
+        r = sut.call('cformat_bytes', template=t.encode('latin-1').hex()) if bm else sut.call('cformat_str', template=t)
+        if 'panic' in r or 'crash' in r:
+            return Failure('panic', case=case, reply=r)
+        if parts is not None and 'parts' in r:
+            specs = [p for p in parts if 'spec' in p]
+            keyed = [p['spec']['key'] is not None for p in specs]
+            want = None if any(k != keyed[0] for k in keyed) else [len(specs), bool(keyed and keyed[0])]
+            ctx.count('check_specifiers_' + ('mixed' if want is None else 'keyed' if want[1] else 'positional' if want[0] else 'no_specifier'))
+            if r.get('check_specifiers') != want:
+                return Failure('check_specifiers_wrong', case=case, got=r.get('check_specifiers'), expected=want)
+            if want is None:
+                # (skipped by the formatting comparison below: the split is still Python's)
+                got_parts = [({'lit': (bytes.fromhex(p['lit']).decode('latin-1') if bm else p['lit'])} if 'lit' in p else
+                              {'spec': dict(p['spec'], flags=''.join(sorted(p['spec']['flags']))), 'at': p['at']}) for p in r['parts']]
+                if got_parts != parts:
+                    return Failure('split_differs', case=case, got=got_parts, expected=parts)
+        if bm:
+            return None
+        if not t.startswith('%'):
+            ctx.count('spec_from_str_without_percent')
+            s = sut.call('cformat_spec', spec=t)
+            if s.get('err') != 'MissingModuloSign' or s.get('index') != 1:
+                return Failure('spec_from_str_accepts_text_without_percent', case=case, got=s)
+        if 'parts' in r:
+            for p in [q for q in r['parts'] if 'spec' in q][:3]:
+                ctx.count('spec_from_str_vs_splitter')
+                s = sut.call('cformat_spec', spec=t[p['at']:])
+                if s.get('spec') != p['spec']:
+                    return Failure('spec_from_str_differs_from_splitter', case=case, at=p['at'], got=s, splitter=p['spec'])
+        elif 'err' in r and t.count('%') == 1:
+            at = t.index('%')
+            ctx.count('spec_from_str_vs_splitter_error')
+            s = sut.call('cformat_spec', spec=t[at:])
+            if s.get('err') != r['err'] or (r['err'] == 'UnsupportedFormatChar' and (s.get('index') != r['index'] - at or s.get('char') != r.get('char'))):
+                return Failure('spec_from_str_error_differs_from_splitter', case=case, at=at, got=s, splitter=r)
         return None
 
     def region(self, case):
